@@ -94,10 +94,10 @@ theorem runPasses_err (I : Ctx → Prop) (passes : Array PassT) (limit : Int) (a
   exact this (List.range (hi - lo)) (fun k hk => List.mem_range.mp hk) (.ok (some c)) ⟨fun x hx => by cases hx; exact h, fun w hw => by cases hw⟩ w e
 
 /-- … and by a whole call of `Silf::runGraphite`, with the bidi step inside it or not, when setting up the call and the bidi step keep it too -/
-theorem runPhase_ind (I : Ctx → Prop) (passes : Array PassT) (bPass lo hi : Nat) (dobidi : Bool) (fuel : Nat)
+theorem runPhase_ind (I : Ctx → Prop) (passes : Array PassT) (bPass lo hi : Nat) (dobidi : Bool) (fuel aMirror : Nat)
     (hstep : ∀ ar k, lo ≤ k → k < hi → ∀ c c', I c → runPassDir (passes.getD k default) c fuel ar = .ok (some c') → I c')
-    (hbegin : ∀ c l, I c → I (c.beginRange l)) (hbidi : ∀ c, I c → I (bidiStep c))
-    (c : Ctx) (h : I c) {c' : Ctx} (e : runPhase passes bPass c lo hi dobidi fuel = .ok (some c')) : I c' := by
+    (hbegin : ∀ c l, I c → I (c.beginRange l)) (hbidi : ∀ c, I c → I (bidiStep c aMirror))
+    (c : Ctx) (h : I c) {c' : Ctx} (e : runPhase passes bPass c lo hi dobidi fuel aMirror = .ok (some c')) : I c' := by
   unfold runPhase at e
   simp only [] at e
   have h0 := hbegin c (c.seg.numGlyphs * 64) h
@@ -116,10 +116,10 @@ theorem runPhase_ind (I : Ctx → Prop) (passes : Array PassT) (bPass lo hi : Na
   · exact runPasses_ind I passes _ true lo hi fuel (fun k hk => hstep true (lo + k) (by omega) (by omega)) _ h0 e
 
 /-- the error version -/
-theorem runPhase_err (I : Ctx → Prop) (passes : Array PassT) (bPass lo hi : Nat) (dobidi : Bool) (fuel : Nat)
+theorem runPhase_err (I : Ctx → Prop) (passes : Array PassT) (bPass lo hi : Nat) (dobidi : Bool) (fuel aMirror : Nat)
     (hstep : ∀ ar k, lo ≤ k → k < hi → ∀ c c', I c → runPassDir (passes.getD k default) c fuel ar = .ok (some c') → I c')
-    (hbegin : ∀ c l, I c → I (c.beginRange l)) (hbidi : ∀ c, I c → I (bidiStep c))
-    (c : Ctx) (h : I c) {w : String} (e : runPhase passes bPass c lo hi dobidi fuel = .error w) :
+    (hbegin : ∀ c l, I c → I (c.beginRange l)) (hbidi : ∀ c, I c → I (bidiStep c aMirror))
+    (c : Ctx) (h : I c) {w : String} (e : runPhase passes bPass c lo hi dobidi fuel aMirror = .error w) :
     ∃ ar k c1, lo ≤ k ∧ k < hi ∧ I c1 ∧ runPassDir (passes.getD k default) c1 fuel ar = .error w := by
   unfold runPhase at e
   simp only [] at e
@@ -145,5 +145,57 @@ theorem runPhase_err (I : Ctx → Prop) (passes : Array PassT) (bPass lo hi : Na
           · omega, hi2, he⟩
   · obtain ⟨k, c2, hk, hi2, he⟩ := runPasses_err I passes _ true lo hi fuel (fun k hk => hstep true (lo + k) (by omega) (by omega)) _ h0 e
     exact ⟨true, lo + k, c2, by omega, by omega, hi2, he⟩
+
+/-- an invariant of the segment that a glyph change of one slot keeps is kept by `doMirror` -/
+theorem doMirror_ind (I : Seg → Prop) (c : Ctx) (aMirror : Nat)
+    (hupd : ∀ (s : Seg) (i g : Nat), I s → I (s.upd i fun sl => sl.setGlyph c.gadv g)) (h : I c.seg) : I (doMirror c aMirror) := by
+  unfold doMirror
+  generalize (ahead c.seg (2 * c.seg.slots.size + 8) c.seg.first) = l
+  have : ∀ (l : List Nat) (s0 : Seg), I s0 → I (l.foldl (fun (s : Seg) i =>
+      let gid := (s.get i).gid
+      let g := (glyphAttr c gid aMirror % 65536).toNat
+      if g ≠ 0 ∧ ((c.seg.dir / 4) % 2 = 0 ∨ glyphAttr c gid (aMirror + 1) = 0) then s.upd i fun sl => sl.setGlyph c.gadv g else s) s0) := by
+    intro l
+    induction l with
+    | nil => intro s0 h0; exact h0
+    | cons i rest ih =>
+      intro s0 h0
+      simp only [List.foldl_cons]
+      apply ih
+      split
+      · exact hupd _ _ _ h0
+      · exact h0
+  exact this l c.seg h
+
+/-- … and by the bidi step, when the reversal keeps it too -/
+theorem bidiStep_ind (I : Seg → Prop) (aMirror : Nat) (hrev : ∀ (s : Seg) (mark : Nat → Bool), I s → I (s.reverseSlots mark))
+    (hupd : ∀ (gadv : Array Int) (s : Seg) (i g : Nat), I s → I (s.upd i fun sl => sl.setGlyph gadv g)) (c : Ctx) (h : I c.seg) :
+    I (bidiStep c aMirror).seg := by
+  have h1 : I (turnStep c).seg := by
+    unfold turnStep
+    split
+    · exact hrev _ _ h
+    · exact h
+  unfold bidiStep
+  split
+  · exact doMirror_ind I _ aMirror (fun s i g hs => hupd _ s i g hs) h1
+  · exact h1
+
+/-- the class map and the other tables of the rule context are not touched by the bidi step -/
+theorem bidiStep_classes (c : Ctx) (aMirror : Nat) : (bidiStep c aMirror).classes = c.classes := by
+  unfold bidiStep turnStep
+  split <;> split <;> rfl
+
+theorem bidiStep_vExceeded (c : Ctx) (aMirror : Nat) : (bidiStep c aMirror).vExceeded = c.vExceeded := by
+  unfold bidiStep turnStep
+  split <;> split <;> rfl
+
+theorem startMirror_vExceeded (font : Font) (c : Ctx) : (startMirror font c).vExceeded = c.vExceeded := by
+  unfold startMirror
+  split <;> rfl
+
+theorem startMirror_classes (font : Font) (c : Ctx) : (startMirror font c).classes = c.classes := by
+  unfold startMirror
+  split <;> rfl
 
 end GrVerif.Pass
